@@ -40,7 +40,7 @@ class Contract(object):
                  cases=None, name=None, consts=None, dict_model=None, inline=False, pure=False, lemmas=(),
                  ghost=None, notes="", trusted=False, unfold=None, assume_post=(), raises_frame="havoc",
                  exc_ensures=None, self_class=None, kwargs=None, defaults=None, statics=None, max_paths=4000,
-                 old_names=None, qualkey=None):
+                 old_names=None, qualkey=None, result_alias=None):
         self.file, self.qual, self.props = file, qual, list(props)
         self.params = dict(params or {})
         self.result = result
@@ -71,6 +71,7 @@ class Contract(object):
         self.max_paths = max_paths
         self.old_names = old_names
         self.qualkey = qualkey
+        self.result_alias = result_alias     # the function returns this parameter itself (same object)
 
     @property
     def key(self):
